@@ -287,7 +287,9 @@ void ValueStore::endDocumentFragment(ValueStoreCache* const valueStoreCache) {
 
         if (!keyValueStore) {
 
-            if (fDoReportError) {
+            // a keyref without any complete reference is satisfied whatever
+            // tables are in scope (cvc-identity-constraint 4.3)
+            if (fDoReportError && fValueTuples && !fValueTuples->isEmpty()) {
                 fScanner->getValidator()->emitError(XMLValid::IC_KeyRefOutOfScope,
                     fIdentityConstraint->getIdentityConstraintName());
             }
